@@ -5,3 +5,6 @@ package suffix
 // Degraded replacement of suffix/export_verif.go (see export_verif_min.go in
 // package lz): the thresholds are ignored.
 func VerifSort(t []byte, sa []int32, sizeThreshold, trSizeThreshold int) { Sort(t, sa) }
+
+// VerifYield: see suffix/export_verif.go.
+var VerifYield func()
